@@ -3,6 +3,9 @@
 CONSTANTS
   MaxSend = @@MAXSEND@@
   EofWithData = TRUE
+  ShapesA <- LocalShapes
+  ShapesB <- @@SHAPESB@@
+  DevCloseWriterFallback = FALSE
   Emit = @@EMIT@@
   Classes = {1}
   BatchSize = 32
@@ -18,6 +21,9 @@ CONSTANTS
   DevSpin = FALSE
   DevNoUnblock = FALSE
   DevAliasFlush = FALSE
+  SockQueue = FALSE
+  DevQueueRefs = FALSE
+  DevDropOnClose = FALSE
 INIT BInit
 NEXT BNext
 VIEW bview
